@@ -295,4 +295,9 @@ let () =
       L [A "ok"; L (List.map (run_query ix) qs)]
     | _ -> raise (Parse_error "args"))
 
+
+let () =
+  register "intersect_all" (function [encs] -> of_api (of_pair of_nl of_nl) (M.intersect_all (to_list nl encs)) | _ -> raise (Parse_error "args"));
+  register "span_search" (function [encs; sl] -> of_api (of_list of_nn) (M.span_search (to_list nl encs) (to_n sl)) | _ -> raise (Parse_error "args"))
+
 let () = main ()
